@@ -117,32 +117,50 @@ where
             crate::verif::hit(crate::verif::Event::ResFill);
             self.reservoir.push(obj)
         } else if self.i < t {
-            // normal reservoir sampling
-            let j: usize = self.rng.gen_range(0..self.i);
+            // normal reservoir sampling: the element with (0-based) index `i` is kept with
+            // probability `k / (i + 1)` and then replaces a random slot
+            let keep = self.rng.gen_bool((self.k as f64) / ((self.i + 1) as f64));
             #[cfg(feature = "verif_hooks")]
-            crate::verif::hit(if j < self.k {
+            crate::verif::hit(if keep {
                 crate::verif::Event::ResReplace
             } else {
                 crate::verif::Event::ResNoReplace
             });
-            if j < self.k {
+            if keep {
+                let j: usize = self.rng.gen_range(0..self.k);
                 self.reservoir[j] = obj;
             }
-        } else if self.i >= self.skip_until {
+        } else {
             // fast skipping approximation
-            #[cfg(feature = "verif_hooks")]
-            crate::verif::hit(crate::verif::Event::ResGapAccept);
-            let j: usize = self.rng.gen_range(0..self.k);
-            self.reservoir[j] = obj;
+            if self.i == t {
+                // entering this phase: the gap in front of the first accepted element is random
+                // as well, otherwise that element would always be sampled
+                let g = self.draw_gap(self.i);
+                self.skip_until = self.i.saturating_add(g);
+            }
+            if self.i >= self.skip_until {
+                #[cfg(feature = "verif_hooks")]
+                crate::verif::hit(crate::verif::Event::ResGapAccept);
 
-            // calculate next skip
-            let p = (self.k as f64) / ((self.i + 1) as f64);
-            let u = 1f64 - self.rng.gen_range((0.)..1.); // (0.0, 1.0]
-            let g = (u.ln() / (1. - p).ln()).floor() as usize;
-            self.skip_until = self.i + g;
+                // calculate next skip, the element with index `i + 1` is the next candidate
+                let g = self.draw_gap(self.i + 1);
+                self.skip_until = (self.i + 1).saturating_add(g);
+
+                let j: usize = self.rng.gen_range(0..self.k);
+                self.reservoir[j] = obj;
+            }
         }
 
         self.i += 1;
+    }
+
+    /// Number of elements that are skipped before the next one is accepted, given that the element
+    /// with (0-based) index `idx` is the next candidate (geometric distribution with
+    /// `p = k / (idx + 1)`).
+    fn draw_gap(&mut self, idx: usize) -> usize {
+        let p = (self.k as f64) / ((idx + 1) as f64);
+        let u = 1f64 - self.rng.gen_range((0.)..1.); // (0.0, 1.0]
+        (u.ln() / (1. - p).ln()).floor() as usize
     }
 
     /// Checks if reservoir is empty (i.e. no data points where observed)
